@@ -15,13 +15,16 @@ structure MK (p : P) : Prop where
   fatMark : ∀ i : Nat, p.fat[i]? = some FATSECT ↔ i ∈ p.difat
   difMark : ∀ i : Nat, p.fat[i]? = some DIFSECT ↔ i ∈ p.difatSectorIds
   kinds : ∀ i v : Nat, p.fat[i]? = some v → v = FREE ∨ v = END ∨ v ≤ MAXREG ∨ v = FATSECT ∨ v = DIFSECT
+  fatNd : p.difat.Nodup
+  difNd : p.difatSectorIds.Nodup
 
 /-- the fields `MK` reads are untouched -/
 def SameMarks (p q : P) : Prop := q.fat = p.fat ∧ q.difat = p.difat ∧ q.difatSectorIds = p.difatSectorIds
 
 theorem mk_of_same {p q : P} (h : SameMarks p q) (m : MK p) : MK q := by
   obtain ⟨h1, h2, h3⟩ := h
-  exact ⟨by rw [h1, h2]; exact m.fatMark, by rw [h1, h3]; exact m.difMark, by rw [h1]; exact m.kinds⟩
+  exact ⟨by rw [h1, h2]; exact m.fatMark, by rw [h1, h3]; exact m.difMark, by rw [h1]; exact m.kinds,
+    by rw [h2]; exact m.fatNd, by rw [h3]; exact m.difNd⟩
 
 /-- what a value must be to be written by anything but `append_fat_sector` -/
 def Plain (v : Nat) : Prop := v = FREE ∨ v = END ∨ v ≤ MAXREG
@@ -42,7 +45,7 @@ theorem mk_set {p : P} {idx old val : Nat} (m : MK p) (hold : p.fat[idx]? = some
     split
     · rename_i he; subst he; simp [hlt]
     · rfl
-  refine ⟨?_, ?_, ?_⟩
+  refine ⟨?_, ?_, ?_, m.fatNd, m.difNd⟩
   · intro i
     show (p.fat.setIfInBounds idx val)[i]? = some FATSECT ↔ i ∈ p.difat
     rw [get]
@@ -78,7 +81,7 @@ theorem mk_push {p : P} {val : Nat} (m : MK p) (hv : Plain val) : MK { p with fa
     have := (m.fatMark _).mpr h; have := lt_of_get this; omega
   have hno2 : p.fat.size ∉ p.difatSectorIds := fun h => by
     have := (m.difMark _).mpr h; have := lt_of_get this; omega
-  refine ⟨?_, ?_, ?_⟩
+  refine ⟨?_, ?_, ?_, m.fatNd, m.difNd⟩
   · intro i
     show (p.fat.push val)[i]? = some FATSECT ↔ i ∈ p.difat
     simp only [Array.getElem?_push]
@@ -113,7 +116,7 @@ theorem mk_pushFat {p : P} (m : MK p) :
     MK { p with fat := p.fat.push FATSECT, difat := p.difat ++ [p.fat.size] } := by
   have hno2 : p.fat.size ∉ p.difatSectorIds := fun h => by
     have := (m.difMark _).mpr h; have := lt_of_get this; omega
-  refine ⟨?_, ?_, ?_⟩
+  refine ⟨?_, ?_, ?_, ?_, m.difNd⟩
   · intro i
     show (p.fat.push FATSECT)[i]? = some FATSECT ↔ i ∈ p.difat ++ [p.fat.size]
     simp only [Array.getElem?_push, List.mem_append, List.mem_singleton]
@@ -141,13 +144,17 @@ theorem mk_pushFat {p : P} (m : MK p) :
     split at h'
     · cases h'; exact Or.inr (Or.inr (Or.inr (Or.inl rfl)))
     · exact m.kinds i v h'
+  · show (p.difat ++ [p.fat.size]).Nodup
+    have hno1 : p.fat.size ∉ p.difat := fun h => by
+      have := (m.fatMark _).mpr h; have := lt_of_get this; omega
+    exact List.nodup_append.mpr ⟨m.fatNd, by simp, fun a ha b hb => by simp at hb; subst hb; exact fun e => hno1 (e ▸ ha)⟩
 
 /-- … and a DIFSECT cell with the new DIFAT sector's id -/
 theorem mk_pushDifat {p : P} (m : MK p) :
     MK { p with fat := p.fat.push DIFSECT, difatSectorIds := p.difatSectorIds ++ [p.fat.size] } := by
   have hno1 : p.fat.size ∉ p.difat := fun h => by
     have := (m.fatMark _).mpr h; have := lt_of_get this; omega
-  refine ⟨?_, ?_, ?_⟩
+  refine ⟨?_, ?_, ?_, m.fatNd, ?_⟩
   · intro i
     show (p.fat.push DIFSECT)[i]? = some FATSECT ↔ i ∈ p.difat
     simp only [Array.getElem?_push]
@@ -175,6 +182,10 @@ theorem mk_pushDifat {p : P} (m : MK p) :
     split at h'
     · cases h'; exact Or.inr (Or.inr (Or.inr (Or.inr rfl)))
     · exact m.kinds i v h'
+  · show (p.difatSectorIds ++ [p.fat.size]).Nodup
+    have hno2 : p.fat.size ∉ p.difatSectorIds := fun h => by
+      have := (m.difMark _).mpr h; have := lt_of_get this; omega
+    exact List.nodup_append.mpr ⟨m.difNd, by simp, fun a ha b hb => by simp at hb; subst hb; exact fun e => hno2 (e ▸ ha)⟩
 
 end CfbVerif.Phys
 
@@ -952,7 +963,7 @@ theorem mk_create (v4 : Bool) : MK (Phys.create v4) := by
     · left; exact ⟨rfl, by simpa using h.symm⟩
     · right; exact ⟨rfl, by simpa using h.symm⟩
     · simp at h
-  refine ⟨?_, ?_, ?_⟩
+  refine ⟨?_, ?_, ?_, by show ([0] : List Nat).Nodup; simp, by show ([] : List Nat).Nodup; simp⟩
   · intro i
     rw [hfat]
     show _ ↔ i ∈ [0]
